@@ -11,6 +11,7 @@
 import TwModel
 import TwSpec
 import TwProofs.Lemmas.EvalStep
+import TwProofs.Lemmas.LoadWhole
 
 namespace Tw.C06
 open Tw
@@ -105,6 +106,14 @@ theorem bound_insert (ins : List (Bytes × InsertDef)) :
         unfold lookupNat at ih ⊢
         simp only [List.find?_cons, hne]
         exact ih
+
+/-- for a layout file that parses: the insert bound to each of its reserve nodes is the page's
+    insert of the reserve's name — the allocation numbers the parser gives to `@reserve` nodes are
+    pairwise different (`parseSource_whole`), so no hypothesis about them is needed -/
+theorem bound_insert_of_parsed_layout (fs : Fs) (lp : Bytes) (lprog : Program) (ins : List (Bytes × InsertDef))
+    (hl : parseFile fs lp layoutBase = .ok lprog) (n : Bytes) (rid : Nat) (hm : (n, rid) ∈ lprog.reserves) :
+    lookupNat (lprog.reserves.filterMap fun (n, rid) => (mapGet ins n).map fun i => (rid, i)) rid = mapGet ins n :=
+  bound_insert ins lprog.reserves (parseFile_whole fs lp layoutBase lprog hl).reserveIds n rid hm
 
 /-- an insert that names no reserve of the layout is reported, with the line of the insert -/
 theorem undefined_insert_is_reported (fs : Fs) (c : Cfg) (p : Bytes) (prog lprog : Program) (ut : Token) (lname : Bytes)
